@@ -188,3 +188,401 @@ Proof.
   - inversion H; subst. cbn [w_env set_env]. unfold do_set_withdraw_addr.
     change (bal (set_wdaddr ?e ?x) a d) with (bal e a d). lia.
 Qed.
+
+(** ** 2. the messages the reward contract emits *)
+(** messages that emit nothing further and never re-enter the reward contract *)
+Definition leaf (m : cmsg) : Prop :=
+  match m with MBank _ _ => True | MWasm _ (WSwap _) _ => True | _ => False end.
+
+Lemma leaf_step w s m w' out :
+  leaf m -> step_msg w s m = Some (w', out) -> out = [] /\ w_reward w' = w_reward w.
+Proof.
+  intros HL H. apply step_msg_inv in H.
+  destruct H as [e' -> -> _ | to wm funds e1 o -> Hsend Hc ->]; [split; reflexivity|].
+  cbn [leaf] in HL. destruct wm; try contradiction.
+  destruct Hc as [h hm h' _ Hm _ _ _ | r rm r' _ Hm _ _ _ | dd dm d' _ Hm _ _ _
+                 | g gm g' _ Hm _ _ _ | t cm t' _ Hm _ _ _ | t cm t' _ Hm _ _ _
+                 | sm e' _ _ He -> -> | _ -> ->]; try discriminate Hm.
+  - destruct Hm as [Hm | (n & Hm & _)]; discriminate Hm.
+  - split; reflexivity.
+  - split; reflexivity.
+Qed.
+
+Definition swap_msgs (r : reward) (self : addr) (coins : list coin) : list cmsg :=
+  flat_map (fun c => if existsb (N.eqb (fst c)) (rw_denoms r) && negb (snd c =? 0)
+                     then [MWasm (rw_swap r) (WSwap (SSwapDenom c (rw_denom r) (Some self))) [c]]
+                     else []) coins.
+
+Lemma flat_map_leaf (d : denom) (p : coin -> bool) (mk : coin -> cmsg) (coins : list coin) :
+  (forall c, p c = true -> leaf (mk c)) ->
+  Forall leaf (flat_map (fun c => if p c then [mk c] else []) coins) /\
+  ((forall c, p c = true -> outflow d (mk c) = 0) ->
+   sumN (map (outflow d) (flat_map (fun c => if p c then [mk c] else []) coins)) = 0).
+Proof.
+  intros HL. induction coins as [|c cs [IH1 IH2]]; cbn [flat_map].
+  - split; [constructor | reflexivity].
+  - destruct (p c) eqn:E; cbn [app].
+    + split; [constructor; [apply HL; exact E | exact IH1]|]. intros H0. cbn [map sumN].
+      rewrite (IH2 H0), (H0 c E). reflexivity.
+    + split; assumption.
+Qed.
+
+Lemma swap_msgs_spec r self coins :
+  Forall leaf (swap_msgs r self coins) /\
+  (~ In (rw_denom r) (rw_denoms r) -> sumN (map (outflow (rw_denom r)) (swap_msgs r self coins)) = 0).
+Proof.
+  unfold swap_msgs.
+  pose proof (flat_map_leaf (rw_denom r)
+    (fun c => existsb (N.eqb (fst c)) (rw_denoms r) && negb (snd c =? 0))
+    (fun c => MWasm (rw_swap r) (WSwap (SSwapDenom c (rw_denom r) (Some self))) [c]) coins) as H.
+  destruct H as [H1 H2]; [intros c _; exact I|]. split; [exact H1|]. intros Hn. apply H2.
+  intros c E. apply andb_true_iff in E. destruct E as [E _].
+  apply existsb_exists in E. destruct E as (x & Hin & Ex). apply N.eqb_eq in Ex.
+  cbn [outflow]. unfold coin_sum, coin_amt. cbn [map sumN].
+  destruct (fst c =? rw_denom r) eqn:Ed; [|reflexivity].
+  apply N.eqb_eq in Ed. exfalso. apply Hn. rewrite <- Ed, Ex. exact Hin.
+Qed.
+
+Lemma reward_out_spec w r self s m r' out :
+  reward_execute w r self s m = Some (r', out) ->
+  Forall leaf out /\
+  (~ In (rw_denom r) (rw_denoms r) -> sumN (map (outflow (rw_denom r)) out) = payout_of r s m).
+Proof.
+  intros H. destruct m; cbn [payout_of];
+    try (cbn [reward_execute] in H; check_inv H as Hs; inversion H; subst;
+         split; [constructor | reflexivity]).
+  - apply rclaim_iff in H. destruct H as (_ & _ & _ & _ & ->). split; [repeat constructor|].
+    intros _. cbn [map sumN outflow]. unfold coin_sum, coin_amt. cbn [map sumN fst snd].
+    rewrite N.eqb_refl. lia.
+  - cbn [reward_execute] in H. bind_inv H as dp Hdp. check_inv H as Hs. inversion H; subst.
+    apply swap_msgs_spec.
+  - apply rupdate_iff in H. destruct H as (_ & -> & _). split; [constructor | reflexivity].
+  - apply rinc_iff in H. destruct H as (_ & _ & _ & _ & _ & ->). split; [constructor | reflexivity].
+  - apply rdec_iff in H. destruct H as (_ & _ & _ & _ & _ & ->). split; [constructor | reflexivity].
+Qed.
+
+(** ** 3. configuration envelope (E4) of the reward contract *)
+(** addresses at which [call] finds a contract *)
+Definition is_contract (a : addr) : bool :=
+  existsb (N.eqb a) [A_hub; A_reward; A_disp; A_reg; A_bsei; A_stsei; A_swap; A_airdrop].
+
+(** E4 for the reward contract: its reward coin is [d0] and is not in its swap list; its owner
+    and pending owner are externally owned accounts (not one of the protocol's contracts) *)
+Definition RCfg (d0 : denom) (r : reward) : Prop :=
+  rw_denom r = d0 /\ ~ In d0 (rw_denoms r) /\
+  is_contract (rw_owner r) = false /\ is_contract (rw_newowner r) = false.
+
+Definition is_cfg_msg (m : reward_msg) : bool :=
+  match m with RConfig _ _ _ | RSetOwner _ | RAccept | RSwapDenom _ _ => true | _ => false end.
+
+Lemma reward_execute_noncfg w r self s m r' out d0 :
+  reward_execute w r self s m = Some (r', out) -> is_cfg_msg m = false -> RCfg d0 r -> RCfg d0 r'.
+Proof.
+  intros H Hm HC. destruct m; try discriminate Hm.
+  - apply rclaim_iff in H. destruct H as (_ & _ & _ & -> & _). exact HC.
+  - cbn [reward_execute] in H. bind_inv H as dp Hdp. check_inv H as Hs. inversion H; subst. exact HC.
+  - apply rupdate_iff in H. destruct H as (_ & _ & [[_ ->] | (_ & _ & _ & _ & ->)]); exact HC.
+  - apply rinc_iff in H. destruct H as (_ & _ & _ & _ & -> & _). exact HC.
+  - apply rdec_iff in H. destruct H as (_ & _ & _ & _ & -> & _). exact HC.
+Qed.
+
+Lemma reward_execute_cfg_sender w r self s m r' out d0 :
+  reward_execute w r self s m = Some (r', out) -> is_cfg_msg m = true -> RCfg d0 r ->
+  is_contract s = false.
+Proof.
+  intros H Hm (_ & _ & Ho & Hn). pose proof (auth_reward _ _ _ _ _ _ _ H) as HA.
+  destruct m; try discriminate Hm; subst s; assumption.
+Qed.
+
+Lemma reward_execute_cfg_effect w r self s m r' out :
+  reward_execute w r self s m = Some (r', out) -> is_cfg_msg m = true ->
+  out = [] /\ rw_gi r' = rw_gi r /\ rw_total r' = rw_total r /\ rw_prev r' = rw_prev r /\
+  rw_holders r' = rw_holders r.
+Proof.
+  intros H Hm. destruct m; try discriminate Hm;
+    cbn [reward_execute] in H; check_inv H as Hs; inversion H; subst; conjs.
+Qed.
+
+Lemma rcore_ext r r' :
+  rw_gi r' = rw_gi r -> rw_total r' = rw_total r -> rw_prev r' = rw_prev r ->
+  rw_holders r' = rw_holders r -> RCore r -> RCore r'.
+Proof. intros E1 E2 E3 E4. unfold RCore, sum_acc, sum_bal. rewrite E1, E2, E3, E4. auto. Qed.
+
+(** ** 4. message-level invariant *)
+Definition owed (d : denom) (stack : list (addr * cmsg)) : N :=
+  sumN (map (fun sm : addr * cmsg => if fst sm =? A_reward then outflow d (snd sm) else 0) stack).
+
+Definition no_rw (stack : list (addr * cmsg)) : Prop := Forall (fun sm => fst sm <> A_reward) stack.
+
+(** pending messages sent by the reward contract are leaves and sit on top of the stack *)
+Fixpoint K (stack : list (addr * cmsg)) : Prop :=
+  match stack with
+  | [] => True
+  | sm :: rest => if fst sm =? A_reward then leaf (snd sm) /\ K rest else no_rw rest
+  end.
+
+Lemma owed_app d s1 s2 : owed d (s1 ++ s2) = owed d s1 + owed d s2.
+Proof. unfold owed. rewrite map_app, sumN_app. reflexivity. Qed.
+
+Lemma owed_no_rw d stack : no_rw stack -> owed d stack = 0.
+Proof.
+  unfold owed, no_rw. induction stack as [|sm st IH]; intros HF; cbn [map sumN]; [reflexivity|].
+  inversion HF as [|x l Hx Hl]; subst. apply N.eqb_neq in Hx. cbv beta. rewrite Hx, (IH Hl). reflexivity.
+Qed.
+
+Lemma owed_tagged_reward d o :
+  owed d (map (fun x => (A_reward, x)) o) = sumN (map (outflow d) o).
+Proof.
+  unfold owed. induction o as [|x o IH]; cbn [map sumN fst snd]; [reflexivity|].
+  rewrite N.eqb_refl, IH. reflexivity.
+Qed.
+
+Lemma no_rw_K stack : no_rw stack -> K stack.
+Proof.
+  unfold no_rw. destruct stack as [|sm st]; intros HF; cbn [K]; [exact I|].
+  inversion HF as [|x l Hx Hl]; subst. apply N.eqb_neq in Hx. rewrite Hx. exact Hl.
+Qed.
+
+Lemma no_rw_tagged to o rest :
+  to <> A_reward -> no_rw rest -> no_rw (map (fun x => (to, x)) o ++ rest).
+Proof.
+  intros Hne Hr. unfold no_rw. apply Forall_app. split; [|exact Hr].
+  apply Forall_forall. intros sm Hin. apply in_map_iff in Hin. destruct Hin as (x & <- & _). exact Hne.
+Qed.
+
+Lemma K_tagged_reward o rest :
+  Forall leaf o -> no_rw rest -> K (map (fun x => (A_reward, x)) o ++ rest).
+Proof.
+  intros HL Hr. induction HL as [|x o Hx Ho IH]; cbn [map app]; [apply no_rw_K; exact Hr|].
+  cbn [K fst snd]. rewrite N.eqb_refl. split; assumption.
+Qed.
+
+Lemma contract_tagged to o rest :
+  is_contract to = true -> Forall (fun sm : addr * cmsg => is_contract (fst sm) = true) rest ->
+  Forall (fun sm : addr * cmsg => is_contract (fst sm) = true) (map (fun x => (to, x)) o ++ rest).
+Proof.
+  intros Hc Hr. apply Forall_app. split; [|exact Hr].
+  apply Forall_forall. intros sm Hin. apply in_map_iff in Hin. destruct Hin as (x & <- & _). exact Hc.
+Qed.
+
+Definition J (d0 : denom) (w : world) (stack : list (addr * cmsg)) : Prop :=
+  K stack /\ Forall (fun sm => is_contract (fst sm) = true) stack /\
+  forall r, w_reward w = Some r ->
+    RCfg d0 r /\ RCore r /\ rw_prev r + owed d0 stack <= bal (w_env w) A_reward d0.
+
+(** what one executed message does to the reward contract *)
+Inductive reward_effect (w : world) (s : addr) (m : cmsg) (w' : world) (out : list (addr * cmsg)) : Prop :=
+| RE_frame to :
+    w_reward w' = w_reward w -> is_contract to = true -> to <> A_reward ->
+    (exists o, out = map (fun x => (to, x)) o) -> reward_effect w s m w' out
+| RE_exec w1 r rm r' o :
+    w_reward w = Some r -> w_env w1 = w_env w' ->
+    (forall a d, bal (w_env w) a d <= bal (w_env w1) a d + (if s =? a then outflow d m else 0)) ->
+    reward_execute w1 r A_reward s rm = Some (r', o) -> w_reward w' = Some r' ->
+    out = map (fun x => (A_reward, x)) o -> reward_effect w s m w' out.
+
+Ltac neq_addr := let X := fresh "X" in intro X; vm_compute in X; discriminate X.
+
+Lemma step_msg_reward_effect w s m w' out :
+  step_msg w s m = Some (w', out) -> reward_effect w s m w' out.
+Proof.
+  intros H. pose proof (step_msg_inv _ _ _ _ _ H) as HE.
+  destruct HE as [e' -> -> _ | to wm funds e1 o -> Hsend Hc ->].
+  - apply (RE_frame _ _ _ _ _ A_hub); [reflexivity | reflexivity | neq_addr | exists []; reflexivity].
+  - destruct Hc as [h hm h' -> _ _ _ -> | r rm r' -> _ Hr He -> | dd dm d' -> _ _ _ ->
+                   | g gm g' -> _ _ _ -> | t cm t' -> _ _ _ -> | t cm t' -> _ _ _ ->
+                   | sm e' -> _ _ -> -> | -> -> ->];
+      try (match goal with |- reward_effect _ _ _ _ (map (fun x => (?t, x)) _) =>
+             apply (RE_frame _ _ _ _ _ t); [reflexivity | reflexivity | neq_addr | eexists; reflexivity] end).
+    + eapply (RE_exec _ _ _ _ _ (set_env w e1) r rm r' o); try reflexivity; try eassumption.
+      intros a d. cbn [w_env set_env outflow]. eapply send_coins_bal_lower; eauto.
+Qed.
+
+Lemma step_msg_J d0 w s m rest w' out :
+  J d0 w ((s, m) :: rest) -> step_msg w s m = Some (w', out) -> J d0 w' (out ++ rest).
+Proof.
+  intros (HK & HF & HR) H. inversion HF as [|x l Hs HFr]; subst. cbn [fst] in Hs.
+  pose proof (step_msg_bal_lower _ _ _ _ _ A_reward d0 H) as Hbal.
+  cbn [K fst snd] in HK. destruct (s =? A_reward) eqn:Es.
+  - (* a pending leaf message of the reward contract *)
+    destruct HK as [HL HK]. destruct (leaf_step _ _ _ _ _ HL H) as [-> Hrw]. cbn [app].
+    split; [exact HK|]. split; [exact HFr|]. intros r Hr. rewrite Hrw in Hr.
+    destruct (HR r Hr) as (Hc & Hcore & Hb). split; [exact Hc|]. split; [exact Hcore|].
+    unfold owed in Hb. cbn [map sumN fst snd] in Hb. rewrite Es in Hb. fold (owed d0 rest) in Hb. lia.
+  - (* any other message: nothing of the reward contract is pending *)
+    pose proof (owed_no_rw d0 rest HK) as Hor.
+    assert (Hb0 : forall r, w_reward w = Some r -> rw_prev r <= bal (w_env w') A_reward d0).
+    { intros r Hr. destruct (HR r Hr) as (_ & _ & Hb). rewrite N.add_0_r in Hbal.
+      assert (owed d0 ((s, m) :: rest) = 0) by (apply owed_no_rw; constructor;
+        [cbn [fst]; apply N.eqb_neq; exact Es | exact HK]). lia. }
+    destruct (step_msg_reward_effect _ _ _ _ _ H)
+      as [to Hrw Hct Hne (o & ->) | w1 r rm r' o Hr Henv Hb1 He Hr' ->].
+    + split; [apply no_rw_K, no_rw_tagged; assumption|].
+      split; [apply contract_tagged; assumption|]. intros r Hr. rewrite Hrw in Hr.
+      destruct (HR r Hr) as (Hc & Hcore & _). split; [exact Hc|]. split; [exact Hcore|].
+      rewrite (owed_no_rw d0 _ (no_rw_tagged to o rest Hne HK)). pose proof (Hb0 r Hr). lia.
+    + destruct (HR r Hr) as (Hc & Hcore & _). pose proof (reward_out_spec _ _ _ _ _ _ _ He) as [HL Hpay].
+      split; [apply K_tagged_reward; assumption|].
+      split; [apply contract_tagged; [reflexivity | assumption]|].
+      intros r0 Hr0. rewrite Hr' in Hr0. inversion Hr0; subst r0. clear Hr0.
+      assert (Hcfg : is_cfg_msg rm = false).
+      { destruct (is_cfg_msg rm) eqn:E; [|reflexivity].
+        pose proof (reward_execute_cfg_sender _ _ _ _ _ _ _ d0 He E Hc). congruence. }
+      split; [eapply reward_execute_noncfg; eauto|].
+      split; [eapply reward_execute_rcore; eauto|].
+      destruct Hc as (Hd & Hnin & _). rewrite <- Hd in Hnin.
+      rewrite owed_app, owed_tagged_reward, Hor, N.add_0_r. rewrite <- Hd at 1. rewrite (Hpay Hnin).
+      set (bank1 := bal (w_env w1) A_reward d0).
+      assert (HI : RInv r bank1).
+      { split; [exact Hcore|]. pose proof (Hb1 A_reward d0) as Hx. rewrite Es, N.add_0_r in Hx.
+        destruct (HR r Hr) as (_ & _ & Hb). unfold bank1. lia. }
+      assert (Hbk : rm = RUpdateIndex -> bank1 = bal (w_env w1) A_reward (rw_denom r))
+        by (intros _; rewrite Hd; reflexivity).
+      destruct (reward_execute_rinv _ _ _ _ _ _ _ bank1 HI Hbk He) as [Hp [_ Hp']].
+      rewrite <- Henv. fold bank1. lia.
+Qed.
+
+(** ** 5. operation-level invariant and envelope *)
+(** the reward pool is solvent against the contract's real bank balance of its reward coin *)
+Definition RWInv (w : world) : Prop :=
+  forall r, w_reward w = Some r -> RInv r (bal (w_env w) A_reward (rw_denom r)).
+
+(** E4 envelope for the reward contract (vacuous while it is not instantiated) *)
+Definition REnv (d0 : denom) (w : world) : Prop := forall r, w_reward w = Some r -> RCfg d0 r.
+
+(** contracts hold no keys: no transaction is signed by the reward contract's own address *)
+Definition NoRewardRoot (ops : list op) : Prop :=
+  Forall (fun o => match o with OTx s _ _ _ => s <> A_reward | _ => True end) ops.
+
+Lemma J_final d0 w : J d0 w [] -> RWInv w.
+Proof.
+  intros (_ & _ & HR) r Hr. destruct (HR r Hr) as ((Hd & _) & Hcore & Hb).
+  rewrite Hd. split; [exact Hcore|]. unfold owed in Hb. cbn [map sumN] in Hb. lia.
+Qed.
+
+(** the first message of a transaction (arbitrary sender other than the reward contract) *)
+Lemma root_step d0 w s m w1 out :
+  s <> A_reward -> REnv d0 w -> RWInv w -> step_msg w s m = Some (w1, out) ->
+  J d0 w1 out \/
+  (out = [] /\ forall r1, w_reward w1 = Some r1 ->
+                 RCore r1 /\ rw_prev r1 <= bal (w_env w1) A_reward d0).
+Proof.
+  intros Hs HE HI H. apply N.eqb_neq in Hs.
+  pose proof (step_msg_bal_lower _ _ _ _ _ A_reward d0 H) as Hbal. rewrite Hs, N.add_0_r in Hbal.
+  assert (Hb0 : forall r, w_reward w = Some r -> rw_prev r <= bal (w_env w1) A_reward d0).
+  { intros r Hr. destruct (HI r Hr) as [_ Hb]. destruct (HE r Hr) as (Hd & _). rewrite Hd in Hb. lia. }
+  destruct (step_msg_reward_effect _ _ _ _ _ H)
+    as [to Hrw Hct Hne (o & ->) | w' r rm r' o Hr Henv Hb1 He Hr' ->].
+  - left. assert (Hnr : no_rw (map (fun x => (to, x)) o)).
+    { rewrite <- (app_nil_r (map _ o)). apply no_rw_tagged; [exact Hne | constructor]. }
+    split; [apply no_rw_K; exact Hnr|]. split.
+    + rewrite <- (app_nil_r (map _ o)). apply contract_tagged; [exact Hct | constructor].
+    + intros r Hr. rewrite Hrw in Hr. split; [apply HE; exact Hr|].
+      split; [apply (HI r Hr)|]. rewrite (owed_no_rw d0 _ Hnr). pose proof (Hb0 r Hr). lia.
+  - destruct (HI r Hr) as [Hcore Hb]. pose proof (HE r Hr) as Hc.
+    destruct (is_cfg_msg rm) eqn:Ecfg.
+    + right. destruct (reward_execute_cfg_effect _ _ _ _ _ _ _ He Ecfg) as (-> & E1 & E2 & E3 & E4).
+      split; [reflexivity|]. intros r1 Hr1. rewrite Hr' in Hr1. inversion Hr1; subst r1.
+      split; [eapply rcore_ext; eauto|]. rewrite E3. apply Hb0. exact Hr.
+    + left. pose proof (reward_out_spec _ _ _ _ _ _ _ He) as [HL Hpay].
+      split; [rewrite <- (app_nil_r (map _ o)); apply K_tagged_reward; [exact HL | constructor]|].
+      split; [rewrite <- (app_nil_r (map _ o)); apply contract_tagged; [reflexivity | constructor]|].
+      intros r0 Hr0. rewrite Hr' in Hr0. inversion Hr0; subst r0. clear Hr0.
+      split; [eapply reward_execute_noncfg; eauto|].
+      split; [eapply reward_execute_rcore; eauto|].
+      destruct Hc as (Hd & Hnin & _). rewrite <- Hd in Hnin.
+      rewrite owed_tagged_reward. rewrite <- Hd at 1. rewrite (Hpay Hnin).
+      set (bank1 := bal (w_env w') A_reward d0).
+      assert (HI1 : RInv r bank1).
+      { split; [exact Hcore|]. pose proof (Hb1 A_reward d0) as Hx. rewrite Hs, N.add_0_r in Hx.
+        rewrite Hd in Hb. unfold bank1. lia. }
+      assert (Hbk : rm = RUpdateIndex -> bank1 = bal (w_env w') A_reward (rw_denom r))
+        by (intros _; rewrite Hd; reflexivity).
+      destruct (reward_execute_rinv _ _ _ _ _ _ _ bank1 HI1 Hbk He) as [Hp [_ Hp']].
+      rewrite <- Henv. fold bank1. lia.
+Qed.
+
+Lemma tx_rwinv d0 w s target m funds w' tr :
+  s <> A_reward -> REnv d0 w -> REnv d0 w' -> RWInv w ->
+  run tx_fuel w [(s, MWasm target m funds)] [] = Some (w', tr) -> RWInv w'.
+Proof.
+  intros Hs HE HE' HI H. change tx_fuel with (S 399) in H. cbn [run] in H.
+  bind_inv H as x Hx. destruct x as [w1 out]. cbn [fst snd] in H. rewrite app_nil_r in H.
+  destruct (root_step d0 _ _ _ _ _ Hs HE HI Hx) as [HJ | [-> Hr]].
+  - apply (J_final d0). eapply (run_preserves_stack (J d0)); [|exact HJ | exact H].
+    intros. eapply step_msg_J; eauto.
+  - destruct 399%nat; cbn [run] in H; inversion H; subst.
+    + intros r1 Hr1. destruct (Hr r1 Hr1) as [Hcore Hb]. destruct (HE' r1 Hr1) as (Hd & _).
+      rewrite Hd. split; assumption.
+    + intros r1 Hr1. destruct (Hr r1 Hr1) as [Hcore Hb]. destruct (HE' r1 Hr1) as (Hd & _).
+      rewrite Hd. split; assumption.
+Qed.
+
+Lemma rwinv_env w e :
+  (forall d, bal (w_env w) A_reward d <= bal e A_reward d) -> RWInv w -> RWInv (set_env w e).
+Proof.
+  intros Hge HI r Hr. cbn [w_reward set_env] in Hr. cbn [w_env set_env].
+  eapply rinv_bank_mono; [apply Hge | apply HI; exact Hr].
+Qed.
+
+(** one operation of a history *)
+Theorem step_rwinv d0 w o :
+  match o with OTx s _ _ _ => s <> A_reward | _ => True end ->
+  REnv d0 w -> REnv d0 (fst (step w o)) -> RWInv w -> RWInv (fst (step w o)).
+Proof.
+  intros Hok HE HE' HI. destruct o; cbn [step] in *.
+  - intros r Hr. discriminate Hr.
+  - destruct (e_now (w_env w) + dt <=? 18446744073); cbn [fst]; [|exact HI].
+    apply rwinv_env; [|exact HI]. intros d. unfold ev_advance.
+    pose proof (deliver_matured_bal_ge (set_now (w_env w) (e_now (w_env w) + dt)) A_reward d) as H.
+    exact H.
+  - destruct (ev_slash (w_env w) v num den unb) as [e'|] eqn:E; cbn [fst]; [|exact HI].
+    apply rwinv_env; [|exact HI]. intros d. unfold ev_slash in E.
+    check_inv E as E1. check_inv E as E2. inversion E; subst. apply N.le_refl.
+  - destruct (ev_accrue (w_env w) A_hub v d a) as [e'|] eqn:E; cbn [fst]; [|exact HI].
+    apply rwinv_env; [|exact HI]. intros d1. unfold ev_accrue in E.
+    destruct (delegation (w_env w) A_hub v); [|discriminate]. inversion E; subst. apply N.le_refl.
+  - cbn [fst]. apply rwinv_env; [|exact HI]. intros d1. apply bal_credit_ge.
+  - destruct (p =? 0); cbn [fst]; [exact HI|]. apply rwinv_env; [|exact HI]. intros d. apply N.le_refl.
+  - cbn [fst]. apply rwinv_env; [|exact HI]. intros d. apply N.le_refl.
+  - cbn [fst]. apply rwinv_env; [|exact HI]. intros d. apply N.le_refl.
+  - cbn [fst]. apply rwinv_env; [|exact HI]. intros d. apply N.le_refl.
+  - destruct (w_hub w); cbn [fst]; exact HI.
+  - cbn [fst]. exact HI.
+  - cbn [fst]. intros r Hr. cbn [w_reward set_w_reward] in Hr. inversion Hr; subst.
+    apply rinv_instantiate.
+  - cbn [fst]. exact HI.
+  - cbn [fst]. exact HI.
+  - cbn [fst]. exact HI.
+  - cbn [fst]. exact HI.
+  - destruct (run tx_fuel w [(sender, MWasm target m funds)] []) as [[w' tr]|] eqn:E; cbn [fst] in *;
+      [|exact HI].
+    eapply tx_rwinv; eauto.
+Qed.
+
+(** C14, history level: from any world satisfying the invariant, along any history that keeps
+    the reward contract's E4 configuration and in which the reward contract's address signs no
+    transaction, every reached world satisfies
+    [sum of accrued <= prev * D], [prev <= real bank balance of the reward coin],
+    [total = sum of balances], [every holder index <= global index]. *)
+Theorem rwinv_reachable d0 ops : forall w0,
+  NoRewardRoot ops -> always (REnv d0) ops w0 -> RWInv w0 -> RWInv (run_ops ops w0).
+Proof.
+  unfold run_ops. induction ops as [|o ops IH]; intros w0 Hok HA HI; cbn [fold_left]; [exact HI|].
+  cbn [always] in HA. destruct HA as [HE HA]. inversion Hok as [|x l Ho Hl]; subst.
+  apply IH; [exact Hl | exact HA|]. eapply step_rwinv; eauto. eapply always_head; exact HA.
+Qed.
+
+Corollary rwinv_from_empty d0 ut ops :
+  NoRewardRoot ops -> always (REnv d0) ops (empty_world ut) -> RWInv (run_ops ops (empty_world ut)).
+Proof. intros Hok HA. apply (rwinv_reachable d0); auto. intros r Hr. discriminate Hr. Qed.
+
+(** the shared wiring vocabulary of Inv.v implies the denom part of [REnv] *)
+Lemma RewardWired_cfg w r :
+  RewardWired w -> w_reward w = Some r ->
+  is_contract (rw_owner r) = false -> is_contract (rw_newowner r) = false ->
+  RCfg (rw_denom r) r.
+Proof.
+  unfold RewardWired. intros HW Hr Ho Hn. rewrite Hr in HW.
+  destruct (w_disp w); [|contradiction]. destruct HW as (_ & _ & Hnin). repeat split; assumption.
+Qed.
